@@ -32,7 +32,11 @@ import (
 
 	"github.com/DrmagicE/gmqtt"
 	"github.com/DrmagicE/gmqtt/persistence/subscription"
+	"github.com/DrmagicE/gmqtt/persistence/subscription/mem"
+	fed "github.com/DrmagicE/gmqtt/plugin/federation"
+	"github.com/DrmagicE/gmqtt/retained/trie"
 	"github.com/DrmagicE/gmqtt/server"
+	"github.com/hashicorp/serf/serf"
 
 	"verifharness/inproc"
 	mw "verifharness/mqttwire"
@@ -1181,12 +1185,34 @@ func (s *script) hooks() server.Hooks {
 	}
 }
 
+type fedSerf struct{}
+
+func (fedSerf) Join([]string, bool) (int, error) { return 0, nil }
+func (fedSerf) RemoveFailedNode(string) error    { return nil }
+func (fedSerf) Leave() error                     { return nil }
+func (fedSerf) Members() []serf.Member           { return nil }
+func (fedSerf) Shutdown() error                  { return nil }
+
+type fedNop struct{}
+
+func (fedNop) Publish(*gmqtt.Message) {}
+
+// fedPlug hands the hook wrappers of a real Federation object to the broker (no serf, no gRPC listener).
+type fedPlug struct{ f *fed.Federation }
+
+func (p *fedPlug) Load(server.Server) error        { return nil }
+func (p *fedPlug) Unload() error                   { return nil }
+func (p *fedPlug) Name() string                    { return "fedprobe" }
+func (p *fedPlug) HookWrapper() server.HookWrapper { return p.f.HookWrapper() }
+
 // world is one broker with the observer and the current connections of the subjects.
 type world struct {
 	b     *inproc.Broker
 	sc    *script
 	obs   *peer
-	obs2  *peer // second observer with the narrow filter "+/2" (Hooks.tla Obs2Filter)
+	obs2  *peer           // second observer with the narrow filter "+/2" (Hooks.tla Obs2Filter)
+	fed   *fed.Federation // the real federation plugin, outermost wrapper, with one peer "n2" that announced "#" (Hooks.tla: "fed")
+	fedN  int             // events of the peer's queue already seen
 	ver   byte
 	subj  map[string]*peer
 	sentN int
@@ -1197,11 +1223,16 @@ func newWorld(ver byte, subjects []string) (*world, error) {
 	for _, s := range subjects {
 		sc.subjects[s] = true
 	}
-	b, err := inproc.Start(inproc.Options{Cfg: inproc.DefaultConfig(), Server: []server.Options{server.WithHook(sc.hooks())}})
+	// the real federation plugin wraps the scripted hooks (it is the outer wrapper): what an inner hook rejects, drops or
+	// rewrites is what the peers of the federation get (or do not get)
+	f := fed.VerifNew(fed.VerifOptions{NodeName: "n1", Serf: fedSerf{}, LocalSubs: mem.NewStore(), Retained: trie.NewStore(), Publisher: fedNop{}})
+	f.VerifNodeJoin("n2", "n1")
+	f.VerifFedSubStore().Subscribe("n2", &gmqtt.Subscription{TopicFilter: "#"})
+	b, err := inproc.Start(inproc.Options{Cfg: inproc.DefaultConfig(), Server: []server.Options{server.WithPlugin(&fedPlug{f}), server.WithHook(sc.hooks())}})
 	if err != nil {
 		return nil, err
 	}
-	w := &world{b: b, sc: sc, ver: ver, subj: map[string]*peer{}}
+	w := &world{b: b, sc: sc, ver: ver, subj: map[string]*peer{}, fed: f}
 	obs, _, err := connectOK(b.Addr, mw.V5, "obs", true, nil)
 	if err != nil {
 		b.Stop(5 * time.Second)
@@ -1290,6 +1321,16 @@ func (w *world) deliveries(marks map[string]int) []Dlv {
 	}
 	collect("obs", w.obs)
 	collect("obs2", w.obs2)
+	// what the federation plugin queued for its peer n2 since the last look (message events only)
+	if w.fed != nil {
+		evs := w.fed.VerifPeer("n2").Queue().Events
+		for _, e := range evs[w.fedN:] {
+			if m := e.GetMessage(); m != nil {
+				out = append(out, Dlv{To: "fed", T: m.TopicName, P: string(m.Payload), Q: int(m.Qos)})
+			}
+		}
+		w.fedN = len(evs)
+	}
 	for c, p := range w.subj {
 		collect(c, p)
 	}
